@@ -651,6 +651,7 @@ class SimNet:
                 raise OSError(errno.EADDRINUSE, "Address already in use")
         holders.append(sock)
         sock.bound_port = port
+        sock.bound_host = host
 
     def udp_unbind(self, sock: FakeSocket):
         port = sock.bound_port
@@ -668,7 +669,12 @@ class SimNet:
         sim = self.sim
 
         def arrive():
-            holders = self.udp_ports.get(port, [])
+            # a device announces itself by LAN broadcast: Linux hands a broadcast datagram only to sockets bound to
+            # the wildcard address (or to the broadcast address itself), never to one bound to a unicast address
+            bound = self.udp_ports.get(port, [])
+            holders = [h for h in bound if getattr(h, "bound_host", "0.0.0.0") in ("0.0.0.0", "", "255.255.255.255", "<broadcast>")]
+            if len(holders) != len(bound):
+                sim.rec("udp", "not-a-broadcast-listener", port)
             target = holders[-1] if holders else None
             overflow = False
             if target is not None and len(target.rxq) >= self.rxq_limit:
@@ -687,14 +693,16 @@ class SimNet:
                 target.rxq.append((payload, src, tag))
         sim.at(delay, arrive)
 
-    def udp_error(self, port: int, delay: float = 0.0):
+    def udp_error(self, port: int, delay: float = 0.0, err: str = "refused"):
         sim = self.sim
+        code = {"refused": errno.ECONNREFUSED, "hostunreach": errno.EHOSTUNREACH, "netunreach": errno.ENETUNREACH,
+                "msgsize": errno.EMSGSIZE, "perm": errno.EPERM, "netdown": errno.ENETDOWN}[err]
 
         def arrive():
             holders = self.udp_ports.get(port, [])
             if holders:
-                holders[-1].rx_errors.append(OSError(errno.ECONNREFUSED, "Connection refused"))
-                sim.rec("udp", "sockerr", port)
+                holders[-1].rx_errors.append(OSError(code, os.strerror(code)))
+                sim.rec("udp", "sockerr", port, err)
         sim.at(delay, arrive)
 
     def udp_taken(self, sock: FakeSocket, tag: Any):
@@ -707,8 +715,11 @@ class SimNet:
 class SimContext:
     """Installs all seams for one run and removes them afterwards."""
 
-    def __init__(self, sched: int, epoch0: float, tz: Optional[str], tick_ns: int = 0):
+    def __init__(self, sched: int, epoch0: float, tz: Optional[str], tick_ns: int = 0, tz_form: Optional[str] = None):
         self.sim = Sim(sched, epoch0, tz)
+        # how the host spells its zone in TZ: "Europe/Paris", ":Europe/Paris" or ":/usr/share/zoneinfo/Europe/Paris"
+        # (all three mean the same to libc)
+        self.tz_form = tz_form
         self.sim.tick_ns = int(tick_ns)         # the wall clock advances this much on every read (0 = frozen between events)
         self.loop: Optional[SimLoop] = None
         self._travel = None
@@ -723,7 +734,7 @@ class SimContext:
         # zone
         self._old_tz = os.environ.get("TZ")
         if sim.tz is not None:
-            os.environ["TZ"] = sim.tz
+            os.environ["TZ"] = {"colon": ":" + sim.tz, "path": ":/usr/share/zoneinfo/" + sim.tz}.get(self.tz_form, sim.tz)
             _real_time.tzset()
         # glibc's mktime keeps a hidden static guess (the UTC offset found by the previous call) that decides
         # which epoch an ambiguous local time maps to: prime it so a run does not depend on earlier runs
